@@ -193,9 +193,10 @@ PROPS = {
         ],
         "assumptions": ["the error stream has a consumer (startScanEngine drains it)",
                         "the run is not cancelled (cancellation is C12; the no-panic theorem does cover cancel)",
-                        "PacketFiller.Fill is a function of the request; a failed WritePacketData is reported once"],
-        "level_text": "Lean theorems over the small-step interleaving system Pipe.step (N workers + N multiplexers + closer + sender + 2 error multiplexers + closer + environment, bounded FIFO channels with closed flags, buffer pool with identities, cancel step) instantiated from the regenerated stage descriptors: side_conditions (SingleCloser, CloseAfterSenders, FreeAfterWrite, GetBeforeFill, CapsPositive, GuardedOnReturnPath, ShapeOk, by decide), C07_conserve_partial (token conservation: written + error-consumed + in flight = consumed requests + failed writes + receiver errors, as an invariant of every reachable state of every uncancelled schedule, any N, any request list, any writer failure pattern), C07_final_partial (Terminated => frames written + errors delivered = one frame per error-free request + one error per failed request/build/write/receiver error, as multisets), C07_done_partial (done closed => every error-free request has already been written), C07_no_panic (no send on closed / double close under every schedule incl. cancel), C07_errc_closes_after_cancel. Tied to the code by the real NewPacketMultiGenerator/PacketEngine/NewSender pipeline with a recording writer (frames multiset, errors multiset, done-after-last-write, bytes stable while the writer holds them), worker counts 1..64, >100 errors, slow and failing writers, and steered traces accepted by the model's step function.",
-        "level_note": "partial: frames are identified in the theorems by the request a written packet was made for; byte exactness C07_bytes_full (buffer exclusivity invariant BufInv) and C07_progress_full (no deadlock given an error consumer) are stated as defs, not proved; both are covered dynamically by the Spec verdict on every harness case (byte-exact multisets, bytes stable during the write, termination within the timeout). Trusted: Lean kernel; Go runtime semantics as modelled; sxfacts; the race-detector run (thorough) is supporting evidence only.",
+                        "PacketFiller.Fill is a function of the request; a failed WritePacketData is reported once",
+                        "at least one generator worker (NewPacketMultiGenerator is called with runtime.NumCPU() >= 1)"],
+        "level_text": "Lean theorems over the small-step interleaving system Pipe.step (N workers + N multiplexers + closer + sender + 2 error multiplexers + closer + environment incl. the error consumer, bounded FIFO channels with closed flags, buffer pool with identities and memory, cancel step) instantiated from the regenerated stage descriptors: side_conditions (SingleCloser, CloseAfterSenders, FreeAfterWrite, GetBeforeFill, CapsPositive, GuardedOnReturnPath, ShapeOk, by decide), C07_conserve (token conservation: written + error-consumed + in flight = consumed requests + failed writes + receiver errors, as an invariant of every reachable state of every uncancelled schedule, any N, any request list, any writer failure pattern), C07_buffer_exclusive (BufInv in every reachable state incl. cancel: buffer identities in in-flight packets / worker locals / sender local / pool pairwise distinct, memory of an in-flight buffer = the bytes built for its request), C07_bytes_full (the k-th byte string handed to WritePacketData = the frame built for the request of the k-th written packet), C07_final_full (Terminated => byte strings written = frames of the error-free requests and errors delivered = one per failed request/build/write/receiver error, as multisets), C07_done_full (done closed => all frames already written, byte level, and no write after done), C07_no_write_after_done (also when cancelled), C07_progress_full (no deadlock of an uncancelled run: Terminated or some non-cancel step enabled, the error consumer being the system step `consume`), C07_no_panic (no send on closed / double close under every schedule incl. cancel), C07_errc_closes_after_cancel. Necessity of FreeAfterWrite: free_before_write_breaks_bytes (swapped sender calls reach a state where the writer saw another request's bytes). Tied to the code by the real NewPacketMultiGenerator/PacketEngine/NewSender pipeline with a recording writer (frames multiset, errors multiset, done-after-last-write, bytes stable while the writer holds them), worker counts 1..64, >100 errors, slow and failing writers, steered traces accepted by the model's step function, and cancellation at every observable event (packet side of C12).",
+        "level_note": "Trusted: Lean kernel; Go runtime semantics as modelled (one channel operation / call per step, sync.Pool as a set of identities that may drop any pooled buffer); sxfacts; the race-detector run (thorough) is supporting evidence only. The final/done theorems need N >= 1 workers (sx passes runtime.NumCPU()).",
     },
     "C20": {
         "modules": ["SxVerif.Props.C20"],
